@@ -63,7 +63,7 @@ static Verdict run_c13(const Case &c)
   else
     v.classes.push_back("tag_written_before_body_complete");
   v.weight = states.size();
-  std::vector<DV> res = batch_dv(states, {e.key}, e.T, e.chunk);
+  std::vector<DV> res = batch_dv(states, {e.key}, e.T, e.chunk, e.refill);
   bool final_ok = false;
   for (size_t i = 0; i < states.size(); i++)
   {
